@@ -1,7 +1,7 @@
 #!/bin/bash
 # usage: tools/validate_seed.sh <prop id> <A|B>   — confirm a sub-agent's seeded change in its scratch worktree
 # (suite result unchanged, demo fails with the change and passes without), then file it under /verif/seeded/.
-ID="$1"; X="$2"; WT=/tmp/mut/$ID; OUT=$WT/_out
+ID="$1"; X="$2"; ROOT="${3:-/tmp/mut}"; LABEL="${4:-$X}"; WT=$ROOT/$ID; OUT=$WT/_out
 BASE="cdd/tests/test_compound/test_doctrans_utils.py::TestDocTransUtils::test_doctransify_cst cdd/tests/test_compound/test_exmod.py::TestExMod::test_exmod cdd/tests/test_compound/test_exmod.py::TestExMod::test_exmod_blacklist cdd/tests/test_compound/test_exmod.py::TestExMod::test_exmod_dry_run cdd/tests/test_compound/test_exmod.py::TestExMod::test_exmod_output__create_sqlalchemy_mod cdd/tests/test_compound/test_exmod.py::TestExMod::test_exmod_whitelist cdd/tests/test_shared/test_ast_cst_utils.py::TestAstCstUtils::test_find_cst_at_ast_finds_all_functions cdd/tests/test_shared/test_cst.py::TestCst::test_cstify_file cdd/tests/test_utils_for_tests.py::TestUtilsForTests::test_unittest_main"
 cd $WT || exit 2
 git checkout -q -- cdd
@@ -18,9 +18,9 @@ OK=1
 [ $RC_WITHOUT -eq 0 ] || { OK=0; echo "$ID-$X: demo fails WITHOUT the change (rc=$RC_WITHOUT)"; }
 echo "$ID-$X: suite='$PASSED' demo_with=$RC_WITH demo_without=$RC_WITHOUT ok=$OK"
 if [ $OK = 1 ]; then
-  D=/verif/seeded/$ID-$X; mkdir -p $D
+  D=/verif/seeded/$ID-$LABEL; mkdir -p $D
   cp $OUT/patch_$X.diff $D/patch.diff; cp $OUT/demo_$X.py $D/demo.py; cp $OUT/notes_$X.md $D/notes.md 2>/dev/null
-  /venv/bin/python - "$ID" "$X" "$PASSED" "$RC_WITH" <<'PY'
+  /venv/bin/python - "$ID" "$LABEL" "$PASSED" "$RC_WITH" <<'PY'
 import json, sys, re
 pid, x, passed, rc = sys.argv[1:5]
 d = "/verif/seeded/%s-%s" % (pid, x)
